@@ -1294,7 +1294,7 @@ def run(ck, tier, rng):
         model_in.append(model_case(case, succs))
     for c in cases[:2] + [c for c in cases if c["class"].startswith("corpus")][:2] + [c for c in cases if "multi34" in c["class"]][:1]:
         ck.sample({"class": c["class"], "init": c["init"][:2] if c["init"][0] != "S" else c["init"], "n_ops": len(c["ops"])}, limit=8)
-    concrete_before = len(ck.violations) + len(ck.known_hits)
+    concrete_before = len(ck.violations)
     diffs = 0
     first_bad = None
     if ck.build.ok:
@@ -1308,7 +1308,7 @@ def run(ck, tier, rng):
                     ck.notes.append("diff [%s] %s (model vs impl)" % (case["class"], d[:400]))
                 if first_bad is None:
                     first_bad = (case, d)
-        if diffs and len(ck.violations) + len(ck.known_hits) == concrete_before:
+        if diffs and len(ck.violations) == concrete_before:
             ck.violation("correspondence", "model/ChartData.v and python-pptx disagree on %d of %d cases, first [%s]: %s; the oracle found no input on which the property itself fails" % (
                 diffs, len(cases), first_bad[0]["class"], first_bad[1][:300]),
                 {"theorem_or_correspondence": "correspondence ChartData.v ~ chart/xmlwriter.py, data.py, category.py, series.py, oxml/chart (theorems C07_* are about the model only)",
